@@ -11,6 +11,8 @@ NOTE = ("Trusts clang 14's parser, Sema and CFG builder, the condition normalisa
         "Value clauses listed as not decided in the evidence are outside the claim.")
 
 CLAIMED = {
+ "C03": ("E-PATH", "Expression-tree rule on the single comparator used by all kill plugins (preference first, descending; enum values PREFER>NORMAL>AVOID), sibling agreement of the five rankForKilling overrides, exhaustive path enumeration of readKillPreferenceAt (prefer probed before avoid), guard dominance of the DFS (recursive_, memory.oom.group, populated), fallback reachability after a failed kill, pop/reverse/push order. Decides the structure for all trees and xattr/outcome assignments; std::sort's result on concrete metric values is not decided.", "4/C03"),
+ "C04": ("E-EFFECT", "May-reach-sink analysis over the whole-library call graph from the dry-aware run() methods: every effect sink (kill, pidfd/mrelease syscalls, xattr and cgroup control-file writes, sd_bus_call_method, kill/restart counters) is dominated by dry==false or lies in a function reachable only through such call sites (greatest fixpoint); plus a frozen table of the places where the dry flag may be read, so it cannot influence selection or the returned PluginRet. Holds for every world and configuration; external hook effects are not decided.", "4/C04"),
  "C01": ("E-EFFECT", "Whole-library who-may-call tables for every signalling / reaping / cgroup.kill / cgroup.freeze / xattr-write sink, argument provenance (by expansion of single-definition locals) from kill(2)'s pid back to openat(victim dir fd, cgroup.procs) and from every KillCandidate back to rankForKilling(configured cgroups | children under the recursive guard | re-resolved by inode), the pid>0 guard, and never-after-success on the kill loops. These are properties of the resolved program, so they hold for all trees, configurations and histories; behaviour of the kernel and path-based xattr TOCTOU are not decided.", "4/C01"),
  "C06": ("E-PATH", "Static path analysis of the suspend/resume code: ASYNC_PAUSED saves (this plugin, current context) and returns; the resume branch restores the saved context before clearing it, clears before running, restarts at the saved plugin by identity and returns; scope guard covers all exits; kill plugins return ASYNC_PAUSED only on their documented edges; suspended state is per ruleset instance. Structural clauses only; uuid freshness as a value is not decided.", "4/C06"),
  "C02": ("E-PATH", "Static path analysis of the engine's control structure (per-iteration exactly-once execution of every detector/prerun, no early exits, switch tables on PluginRet, guard dominance of chain starts, drop-ins before base, main-loop order). Holds for all configurations and return-value histories because it is a property of the CFG, not of sampled runs. Decides the structural clauses only.", "4/C02"),
